@@ -172,8 +172,8 @@ theorem translateAll_post {a r : List Stmt} (h : translateAll a = some r) : ∀ 
   have hc' : p.choices ≠ [] := hc
   obtain ⟨raw, c, h1, h2, h3, h4⟩ := translateOperand_post htr hc'
   refine ⟨raw, c, h1, h2, h3, .inl ⟨?_, h4⟩⟩
-  show (!(p.needsRes || !p.choices.isEmpty)) = false
-  rw [h2]; simp
+  show p.choices.isEmpty = false
+  rw [h2]; rfl
 
 /-! ### the size loop -/
 
@@ -366,5 +366,160 @@ theorem Stages.pcr_postbyte {fs : Files} {lines : List Str} {a : Assembly} (st :
   rcases h4 with ⟨h, _⟩ | ⟨_, h⟩
   · rw [hfx] at h; cases h
   · exact h
+
+/-! ### batch B3: the post byte of a label offset of a pointer register -/
+
+/-- the post byte of a package `fix_addresses` resolves WITHOUT post byte choices (`LDA TABLE,X`): low nibble `9`,
+"16-bit constant offset from the register" (`1xx01001` / indirect `1xx11001`) -/
+def AbsPost (p : Pkg) : Prop :=
+  p.needsRes = true → p.choices = [] → ∃ raw, p.postByte.int? = some raw ∧ raw % 16 = 9
+
+theorem offBody_abs {ind : Bool} {row : InstrRow} {right : Str} {raw0 : Nat} {needs : Bool} {l : Value}
+    {p : Pkg} (hraw : raw0 % 16 = 0) (h : offBody ind row right raw0 needs l = .ok p) : AbsPost p := by
+  unfold offBody at h
+  simp only [bind, Except.bind, pure, Except.pure, throw, throwThe, MonadExceptOf.throw] at h
+  repeat' split at h
+  all_goals first
+    | (cases h; done)
+    | (cases h
+       intro hn hc
+       first
+       | (cases hc; done)
+       | (cases hn; done)
+       | contradiction
+       | (rename_i pb hpb
+          have hi := numV_int hpb
+          refine ⟨_, hi, ?_⟩
+          rw [or_mod16, hraw]
+          cases ind <;> rfl))
+
+theorem translateOffset_abs {ind : Bool} {row : InstrRow} {left : Value} {right : Str} {raw0 : Nat} {p : Pkg}
+    (hraw : raw0 % 16 = 0) (h : translateOffset ind row left right raw0 = .ok p) : AbsPost p := by
+  rw [translateOffset_eq] at h
+  split at h
+  · cases h
+  · split at h
+    · cases h
+    · split at h
+      · exact offBody_abs hraw h
+      · cases h
+    · exact offBody_abs hraw h
+
+theorem AbsPost.of_false {p : Pkg} (h : p.needsRes = false) : AbsPost p := fun hn => by rw [h] at hn; cases hn
+
+theorem translateIndexed_abs {row : InstrRow} {o : Operand} {p : Pkg} (h : translateIndexed o row = .ok p) :
+    AbsPost p := by
+  unfold translateIndexed at h
+  rcases o with ⟨kind, text, value, left, right⟩
+  cases left <;> cases right
+  all_goals simp only [bind, Except.bind, pure, Except.pure, throw, throwThe, MonadExceptOf.throw, Bool.and_false,
+    Bool.false_eq_true, if_false] at h
+  case val.some =>
+    generalize translateIndexed.match_3 (fun x => Bool) (Side.val _) _ _ _ = b at h
+    repeat' split at h
+    all_goals first
+    | (cases h; done)
+    | (cases h; exact .of_false rfl)
+    | exact translateOffset_abs (regBits_mod16 _) h
+  case text.some =>
+    generalize translateIndexed.match_3 (fun x => Bool) (Side.text _) _ _ _ = b at h
+    repeat' split at h
+    all_goals first
+    | (cases h; done)
+    | (cases h; exact .of_false rfl)
+  all_goals
+    repeat' split at h
+    all_goals first
+    | (cases h; done)
+
+theorem translateExtIndirect_abs {row : InstrRow} {o : Operand} {p : Pkg} (h : translateExtIndirect o row = .ok p) :
+    AbsPost p := by
+  unfold translateExtIndirect at h
+  rcases o with ⟨kind, text, value, left, right⟩
+  cases left <;> cases right
+  all_goals simp only [bind, Except.bind, pure, Except.pure, throw, throwThe, MonadExceptOf.throw, Bool.and_false,
+    Bool.false_eq_true, if_false] at h
+  case val.some =>
+    by_cases hc : (row.ind.isNone || row.ind == some 0) = true
+    · rw [if_pos hc] at h; cases h
+    rw [if_neg hc] at h
+    generalize translateIndexed.match_3 (fun x => Bool) (Side.val _) _ _ _ = b at h
+    repeat' split at h
+    all_goals first
+    | (cases h; done)
+    | (cases h; exact .of_false rfl)
+    | exact translateOffset_abs (extRaw_mod16 _) h
+  case text.some =>
+    by_cases hc : (row.ind.isNone || row.ind == some 0) = true
+    · rw [if_pos hc] at h; cases h
+    rw [if_neg hc] at h
+    generalize translateIndexed.match_3 (fun x => Bool) (Side.text _) _ _ _ = b at h
+    generalize (if (_ == ['A']) = true then 22 else if (_ == ['B']) = true then 21 else 27 : Nat) = k at h
+    repeat' split at h
+    all_goals first
+    | (cases h; done)
+    | (cases h; exact .of_false rfl)
+    | exact translateOffset_abs (extRaw_mod16 _) h
+  all_goals
+    repeat' split at h
+    all_goals first
+    | (cases h; done)
+    | (cases h; exact .of_false rfl)
+
+theorem translateOperand_abs {row : InstrRow} {o : Operand} {p : Pkg} (h : translateOperand o row = .ok p) :
+    AbsPost p := by
+  unfold translateOperand at h
+  cases hk : o.kind <;> simp only [hk] at h
+  case pseudo =>
+    unfold translatePseudo at h
+    simp only [bind, Except.bind, pure, Except.pure, throw, throwThe, MonadExceptOf.throw] at h
+    repeat' split at h
+    all_goals first
+      | (cases h; done)
+      | (cases h; exact .of_false rfl)
+  case special =>
+    unfold translateSpecial at h
+    simp only [bind, Except.bind, pure, Except.pure, throw, throwThe, MonadExceptOf.throw] at h
+    repeat' split at h
+    all_goals first
+      | (cases h; done)
+      | (cases h; exact .of_false rfl)
+  case indexed => exact translateIndexed_abs h
+  case extIndirect => exact translateExtIndirect_abs h
+  all_goals
+    try simp only [bind, Except.bind, pure, Except.pure, throw, throwThe, MonadExceptOf.throw] at h
+    repeat' split at h
+    all_goals first
+      | (cases h; done)
+      | (cases h; exact .of_false rfl)
+
+/-- **post byte of a label offset of an accepted program**: a final statement with `needsRes` and without post byte
+choices carries a post byte with low nibble `9` (16-bit constant offset): the size loop never touched it -/
+theorem Stages.abs_postbyte {fs : Files} {lines : List Str} {a : Assembly} (st : Stages fs lines a)
+    {i : Nat} {s : Stmt} (hs : a.stmts[i]? = some s) (hn : s.pkg.needsRes = true) (hc : s.pkg.choices = []) :
+    ∃ pb, s.pkg.postByte.int? = some pb ∧ pb % 16 = 9 := by
+  obtain ⟨s4, hs4, hsame⟩ := (fixAll_pw st.hfix).get' hs
+  obtain ⟨s3, hs3, hrel34⟩ := (assignAddrs_pw st.haddr).get' hs4
+  obtain ⟨s2, hs2, hrel23⟩ := (pcrLoop_pw _ _ st.hpcr).get' hs3
+  obtain ⟨s1, _, p, htr, rfl⟩ := (translateAll_pw st.htranslate).get' hs2
+  have e : s.pkg.postByte = s4.pkg.postByte ∧ s.pkg.needsRes = s4.pkg.needsRes ∧ s.pkg.choices = s4.pkg.choices := by
+    obtain ⟨v, rfl⟩ := hsame; exact ⟨rfl, rfl, rfl⟩
+  have e34 : s4.pkg.postByte = s3.pkg.postByte ∧ s4.pkg.needsRes = s3.pkg.needsRes ∧
+      s4.pkg.choices = s3.pkg.choices := by
+    obtain ⟨v, rfl⟩ := hrel34; exact ⟨rfl, rfl, rfl⟩
+  have hc3 : s3.pkg.choices = [] := by rw [← e34.2.2, ← e.2.2]; exact hc
+  have hn3 : s3.pkg.needsRes = true := by rw [← e34.2.1, ← e.2.1]; exact hn
+  -- the statement was fixed from the start, the loop left it alone
+  have hc2 : p.choices = [] := by
+    obtain ⟨_, _, _, _, _, h23⟩ := hrel23
+    have : s3.pkg.choices = p.choices := by rw [h23]
+    rw [← this]; exact hc3
+  have hfix2 : ({ s1 with pkg := p, fixedSize := p.choices.isEmpty } : Stmt).fixedSize = true := by
+    show p.choices.isEmpty = true
+    rw [hc2]; rfl
+  have h32 := ((pcrLoop_width st.htranslate st.hpcr).1.2 i _ s3 hs2 hs3).2.2 hfix2
+  subst h32
+  obtain ⟨raw, h1, h2⟩ := translateOperand_abs htr hn3 hc2
+  exact ⟨raw, by rw [e.1, e34.1]; exact h1, h2⟩
 
 end CoCo.Asm
